@@ -1,4 +1,5 @@
 import Cello.Lifecycle
+import Cello.LifecycleSrc
 import Driver.Common
 /- driver for engine `life` (C06): interprets the op files of harness/h_life.c on the model `Cello.Life` and prints the
    same `O` lines: per op the ledger events it caused (in order; sorted in `uno` histories), the pending order of the
@@ -56,7 +57,7 @@ def observe (tag : String) (h : Hist) (pend : List Nat) (withReg : Bool) (setOnl
 def doOp (h : Hist) (tag : String) (op : Op) (withReg : Bool := true) : Hist × String :=
   let s0 := { h.st with log := [] }
   let pend := stepPending s0 op
-  let s1 := step Cfg.current s0 op
+  let s1 := step sourceCfg s0 op
   let h' := { h with st := s1 }
   -- a registration that runs a threshold collection: the harness compares the set of finalised objects only (the real
   -- conservative stack scan may keep some garbage, which the harness then reclaims with a second collection)
